@@ -608,6 +608,12 @@ def main(ctx):
                       ', '.join(bad)[:300],
                       found_input=len(ctx.violations) > n_viol_before,
                       signature={'kind': 'proof-broken'})
+    if ctx.tier == 'thorough' and proof_ok:
+        if not ctx.coqchk('C11/Props.v'):
+            ctx.violation('proof-broken', {'coqchk': ctx.notes.get('coqchk')},
+                          'coqchk accepts C11/Props.vo and its dependencies', 'rejected',
+                          'coqchk FV.C11.Props', found_input=False, signature={'kind': 'coqchk'})
+    ctx.exhaustive = False
     return ctx.finish()
 
 
